@@ -98,6 +98,8 @@ def monitor(g, before_adj, op, outcome, mon):
 
 def run_case(ops):
     from maestrowf.datastructures.dag import DAG
+    import common
+    common.next_logging()
     g = DAG()
     lines = ["dag.reset"]
     out = ["ok"]
